@@ -17,13 +17,13 @@ ENTRIES = [
 
 
 def run(ctx):
-    D.rule_t1(ctx, ENTRIES,
+    ctx.do(D.rule_t1, ENTRIES,
               "rotations, sl2_iso(list), regular_polygon and the README "
               "examples then produce object arrays on which inverse / "
               "eigenvalue / trigonometric routines fail")
-    H.rule_h1(ctx)
-    H.rule_h2(ctx)
-    D.rule_t2(ctx)
-    u1(ctx, ENTRIES, min_functions=15)
+    ctx.do(H.rule_h1)
+    ctx.do(H.rule_h2)
+    ctx.do(D.rule_t2)
+    ctx.do(u1, ENTRIES, min_functions=15)
     ctx.r.assume("numerical equality across packagings and scale invariance "
                  "of arbitrary formulas are not decided")
